@@ -36,6 +36,13 @@ def asan(bin, pkg="vh_channels", budget_t=120, shards=16, **kw):
     e.update(kw)
     return e
 
+def tsan(bin, pkg="vh_channels", budget_t=150, shards=16, **kw):
+    """Thorough-only slice: the same engine built with ThreadSanitizer (std rebuilt with -Zbuild-std)."""
+    e = {"bin": bin, "pkg": pkg, "kind": "tsan", "tiers": ["thorough"], "budget": {"quick": 30, "thorough": budget_t},
+         "shards": {"thorough": shards}}
+    e.update(kw)
+    return e
+
 SAN_ASSUME = [
     "sanitizer slices (thorough): Miri runs with tree borrows (stacked borrows rejects the self-referential futures of "
     "any async code that hands out a pointer to a pinned slot) and only on the tiny shapes it can afford; ASan/LSan see "
@@ -49,12 +56,15 @@ SEQ_ASSUME = [
 ]
 
 REGISTRY = {
-    "C01": {"engines": [stress(budget_q=20), stepper(budget_q=6, budget_t=90), asan("chan_stress"), miri("chan_stepper", budget_t=240)],
+    "C01": {"engines": [stress(budget_q=20), stepper(budget_q=6, budget_t=90), asan("chan_stress"), tsan("chan_stress"),
+                        miri("chan_stepper", budget_t=240)],
             "assumptions": COMMON_ASSUME + SAN_ASSUME},
-    "C02": {"engines": [stress(budget_q=18), eng("chan_seq", "vh_channels", budget_q=7, budget_t=120, shards={"quick": 8, "thorough": 16})],
-            "assumptions": COMMON_ASSUME},
-    "C03": {"engines": [stress(budget_q=18), eng("chan_seq", "vh_channels", budget_q=7, budget_t=120, shards={"quick": 8, "thorough": 16})],
-            "assumptions": COMMON_ASSUME},
+    "C02": {"engines": [stress(budget_q=18), eng("chan_seq", "vh_channels", budget_q=7, budget_t=120, shards={"quick": 8, "thorough": 16}),
+                        tsan("chan_stress"), miri("chan_stress", budget_t=240)],
+            "assumptions": COMMON_ASSUME + SAN_ASSUME},
+    "C03": {"engines": [stress(budget_q=18), eng("chan_seq", "vh_channels", budget_q=7, budget_t=120, shards={"quick": 8, "thorough": 16}),
+                        tsan("chan_stress")],
+            "assumptions": COMMON_ASSUME + SAN_ASSUME},
     "C04": {"engines": [stress(budget_q=18), eng("spmc_stress", "vh_channels", budget_q=6, budget_t=120, shards={"quick": 8, "thorough": 16}),
                         eng("topic_check", "vh_channels", budget_q=6, budget_t=120, shards={"quick": 8, "thorough": 16}),
                         eng("chan_seq", "vh_channels", budget_q=5, budget_t=120, shards={"quick": 8, "thorough": 16})],
@@ -63,7 +73,10 @@ REGISTRY = {
         "progress verdicts: a thread counts as stuck only after 3 quiet windows with a healthy scheduler canary, all "
         "unfinished threads inside blocking calls, and either a legal spurious wake releases it or the history model "
         "shows its operation enabled"]},
-    "C06": {"engines": [stepper(), stress(budget_q=15, budget_t=240), asan("chan_stepper", budget_t=90), asan("chan_stress"),
+    "C06": {"engines": [stepper(), stress(budget_q=15, budget_t=240),
+                        eng("spmc_stress", "vh_channels", budget_q=6, budget_t=90, shards={"quick": 8, "thorough": 16}),
+                        eng("topic_check", "vh_channels", budget_q=5, budget_t=60, shards={"quick": 8, "thorough": 16}, args={"all": {"only": "seq"}}),
+                        asan("chan_stepper", budget_t=90), asan("chan_stress"),
                         miri("chan_stepper"), miri("chan_stress", budget_t=240)], "assumptions": COMMON_ASSUME + SAN_ASSUME + [
         "stepper: one in-flight future per handle; a Stream poll is followed through to Ready (abandoning the wrapper "
         "drops no library future); wakers never poll inline"]},
